@@ -80,6 +80,13 @@ def geometry(name, nc):
     elif name == 'rect':       # a rectangular 2-column layout: sites share x and y values (distinct rows)
         pos = np.array([[16. * (i % 2), 20. * (i // 2)] for i in range(nc)])
         shanks = np.zeros(nc, dtype=np.int32)
+    elif name == 'col14p_mm':    # the two-column layout in mm, sites numbered in a scattered order
+        pos, shanks = geometry('col14', nc)
+        pos = pos[[(i * 5) % nc for i in range(nc)]] * 0.001 if np.gcd(5, nc) == 1 else pos[::-1] * 0.001
+    elif name in ('grid_mm', 'col14_mm'):   # the same layouts with coordinates in millimetres: distinct
+        # positions less than one unit apart
+        pos, shanks = geometry(name[:-3], nc)
+        pos = pos * 0.001
     elif name == 'twoshank':   # two shanks of nc//2 (+ remainder on the first)
         h = (nc + 1) // 2
         pos = np.array([[0. if i < h else 200., 12. * (i if i < h else i - h) + (0 if i < h else 5)]
